@@ -94,6 +94,7 @@ fn main() {
                 "effect_list" => tr.effect_list(rq),
                 "closure_value" => tr.closure_value(rq),
                 "loop_body" => tr.loop_body(rq),
+                "loop_step" => tr.loop_step(rq),
                 k => Err(TErr { file: "<spec>".into(), line: 0, msg: format!("unknown request kind `{k}`"), excluded: false }),
             }
         };
